@@ -569,7 +569,7 @@ def lookalike(rng, hash_table_items, with_storage=False, allow_value_side=False)
     return a.assemble(), info
 
 
-def literal_keys(rng, B):
+def literal_keys(rng, B, size_hint=None):
     """Programs performing SLOAD / SSTORE with literal constant keys placed on the first path, behind forks, in
     threads that die afterwards, and amid noise. Returns (code, keys)."""
     a = evm.Asm()
@@ -578,12 +578,21 @@ def literal_keys(rng, B):
 
     def access():
         k = rng.choice(B) if rng.random() < 0.7 else rng.getrandbits(rng.choice([8, 64, 65, 128, 129, 255, 256]))
-        mode = rng.choice(["r", "w", "rw", "wr", "rmw-mask", "rmw-or", "rmw-add", "rmw-packed", "copy", "rmw-shift"])
+        mode = rng.choice(["r", "w", "rw", "wr", "rmw-mask", "rmw-or", "rmw-add", "rmw-packed", "copy", "rmw-shift",
+                           "w-near-limit"])
         keys.setdefault(k, set()).add(mode)
         kp = k if k else ("push", 0, 1)
         if rng.random() < 0.3:
             kp = ("push", k, 32)
         masks = [0xff, 0xffff, (1 << 160) - 1, (1 << 128) - 1, evm.M256 ^ 0xff, evm.M256 ^ (0xffff << 8), 1, 0xff00]
+        if mode == "w-near-limit":
+            # the stored value has (almost) exactly value_size_limit nodes
+            limit = size_hint or 250
+            n = max(1, limit + rng.choice([-2, -1, -1, 0, 0, 1]))
+            a.emit(rng.choice(["CALLDATASIZE", "CALLVALUE"]))
+            a.emit(bytes([0x19]) * (n - 1))
+            a.emit(kp, "SSTORE")
+            return
         if mode == "rmw-mask":
             a.emit(kp, "SLOAD", ("push", rng.choice(masks), None), "AND", kp, "SSTORE")
             return
